@@ -52,12 +52,12 @@ var props = map[string]propSpec{
 		{Pkg: "registration", Fn: "VerifC03NodeSide", Validate: 4, MustReach: []string{"own-request-accepted", "own-request-rejected"}},
 	}, Assumptions: with(), Explanation: "validateFetchRequestCommon with every bundle field, signature provenance, skew and clock symbolic"},
 	"C04": {Harnesses: []harnessSpec{
-		{Pkg: "rotation", Fn: "VerifC04OperatorFlow", Validate: 4, MustReach: []string{"end"}, ShardBits: 2},
-		{Pkg: "rotation", Fn: "VerifC04TokenFlow", Validate: 4, MustReach: []string{"end"}, ShardBits: 2},
-		{Pkg: "rotation", Fn: "VerifC04WrapperFlow", Validate: 4, MustReach: []string{"end"}, ShardBits: 2},
-		{Pkg: "rotation", Fn: "VerifC04RewrappedFlow", Validate: 4, MustReach: []string{"end"}, ShardBits: 2},
-		{Pkg: "rotation", Fn: "VerifC04NodeRefuses", Validate: 4, MustReach: []string{"accepted", "refused"}},
-		{Pkg: "rotation", Fn: "VerifC04ShortRandom", Validate: 3, MustReach: []string{"authorized", "refused"}},
+		{Pkg: "protocol", Fn: "VerifC04OperatorFlow", Validate: 4, MustReach: []string{"end"}, ShardBits: 2},
+		{Pkg: "protocol", Fn: "VerifC04TokenFlow", Validate: 4, MustReach: []string{"end"}, ShardBits: 2},
+		{Pkg: "protocol", Fn: "VerifC04WrapperFlow", Validate: 4, MustReach: []string{"end"}, ShardBits: 2},
+		{Pkg: "protocol", Fn: "VerifC04RewrappedFlow", Validate: 4, MustReach: []string{"end"}, ShardBits: 2},
+		{Pkg: "protocol", Fn: "VerifC04NodeRefuses", Validate: 4, MustReach: []string{"accepted", "refused"}},
+		{Pkg: "protocol", Fn: "VerifC04ShortRandom", Validate: 3, MustReach: []string{"authorized", "refused"}},
 	}, Assumptions: with("clock assumption: the honest flow finishes within 1 s of symbolic time (vf.ShortScenario)", "the symbolic run uses the harness's marshal-based storage; file and store-once back ends are covered by C19"),
 		Explanation: "the four honest enrollment flows from SSA (storage wrappers on/off on both sides, application state on/off) with every issued certificate inspected; node-side refusal of foreign or wrong-nonce responses; full-entropy server key"},
 	"C05": {Harnesses: []harnessSpec{
@@ -125,8 +125,11 @@ var props = map[string]propSpec{
 		{Pkg: "storage/inmem", Fn: "VerifC19InmemStep", Validate: 16},
 	}, Assumptions: with("sequential histories only; ids are path-safe"), Explanation: "inductive step of the in-memory back end against a reference map"},
 	"C20": {Harnesses: []harnessSpec{
-		{Pkg: "tls", Fn: "VerifC20Whole", Loop: 12, Validate: 4},
-		{Pkg: "tls", Fn: "VerifC20Malformed", Validate: 4},
-		{Pkg: "tls", Fn: "VerifC20Lemma267", Validate: 0},
-	}, Assumptions: with(), Explanation: "whole-function round trip for 1..4 chunks + per-chunk inductive lemma by loop cut"},
+		{Pkg: "tls", Fn: "VerifC20Whole", Loop: 12, Validate: 4, MustReach: []string{"end"}, Panics: true},
+		{Pkg: "tls", Fn: "VerifC20InterleavedFetch", Loop: 12, Validate: 8, MustReach: []string{"end"}, Panics: true},
+		{Pkg: "tls", Fn: "VerifC20InterleavedAuth", Loop: 12, Validate: 8, MustReach: []string{"end"}, Panics: true},
+		{Pkg: "tls", Fn: "VerifC20Malformed", Validate: 4, MustReach: []string{"end"}, Panics: true},
+		{Pkg: "tls", Fn: "VerifC20Lemma267", Validate: 0, Panics: true},
+	}, Assumptions: with("strings are byte sequences (code points 0..255); UTF-8 decoding ([]rune conversions, range over string) is not encoded", "the ClientHello limit is taken as 268 entries (65535 / minimal entry size); the per-chunk lemma covers chunk indices 0..267"),
+		Explanation: "whole-function round trip for 1..4 chunks with symbolic content and length, the same with two unrelated names interleaved at arbitrary positions for both request prefixes, arbitrary malformed entries, and the per-chunk inductive lemma by loop cut up to the ClientHello limit"},
 }
